@@ -15,6 +15,13 @@ class PlanBaseBoom(BaseException):
     pass
 
 
+HANG_TIMEOUT = 30
+
+
+class Hang(Exception):
+    pass
+
+
 class Recorder:
     def __init__(self):
         self.lock = threading.Lock()
@@ -134,13 +141,26 @@ def run_plan_case(ctx, uberjob, rng, props, found, barrier_width=None):
     case = {"ncalls": ncalls, "deps": [sorted(d) for d in deps], "failing": sorted(failing), "output": outkind,
             "wanted": sorted(wanted), "workers": workers, "max_errors": max_errors, "scheduler": scheduler, "exc": list(exc_kinds)}
     before = set(threading.enumerate())
-    try:
-        res = uberjob.run(plan, output=output, max_workers=workers, max_errors=max_errors, scheduler=scheduler, progress=None)
-        outcome = ("returned", res)
-    except uberjob.CallError as e:
-        outcome = ("raised", e)
-    except BaseException as e:  # noqa
-        outcome = ("other", e)
+    box = {}
+
+    def target():
+        try:
+            box["o"] = ("returned", uberjob.run(plan, output=output, max_workers=workers, max_errors=max_errors,
+                                                scheduler=scheduler, progress=None))
+        except uberjob.CallError as e:
+            box["o"] = ("raised", e)
+        except BaseException as e:  # noqa
+            box["o"] = ("other", e)
+    th = threading.Thread(target=target, daemon=True)
+    th.start()
+    th.join(HANG_TIMEOUT)
+    if th.is_alive():
+        # run never returned: C07.  The stuck threads are daemons; stop the campaign here.
+        found.append(("C07", "plan:hang", "uberjob.run did not return within %ds" % HANG_TIMEOUT, dict(case, log=rec.log[:200])))
+        raise Hang()
+    outcome = box["o"]
+    res = outcome[1]
+    before.add(th)
     case["outcome"] = outcome[0]
     started = {}
     ok, failed, order = set(), set(), []
@@ -221,7 +241,11 @@ def plan_campaign(ctx, props, n_quick=150, n_thorough=3000):
     uberjob = core.use_repo()
     found = []
     for _ in range(ctx.n(n_quick, n_thorough)):
-        run_plan_case(ctx, uberjob, ctx.rng, props, found)
+        try:
+            run_plan_case(ctx, uberjob, ctx.rng, props, found)
+        except Hang:
+            ctx.broke("plan-level campaign aborted: uberjob.run hung", found[-1][2])
+            break
     for prop, key, what, replay in found:
         if prop in props:
             ctx.fail(key, what, replay)
